@@ -218,11 +218,20 @@ static void lock_run(void)
     p_mutex_free(m); p_cond_variable_free(c); p_spinlock_free(s); p_rwlock_free(r);
 }
 
+static void misc_run(void)
+{
+    PTimeProfiler *t = p_time_profiler_new(); pchar *tok, *save = NULL; char buf[24] = "x,y,,z";
+    if (t) { (void)p_time_profiler_elapsed_usecs(t); p_time_profiler_reset(t); p_time_profiler_free(t); }
+    tok = p_strtok(buf, ",", &save); while (tok) tok = p_strtok(NULL, ",", &save);
+    (void)p_process_get_current_pid(); (void)p_process_is_running(p_process_get_current_pid());
+    (void)p_file_is_exists(ini_path);
+}
+
 static const Scenario SC[] = {
     {"tree-bst", tree0_setup, tree_run, tree_verify, tree_teardown}, {"tree-rb", tree1_setup, tree_run, tree_verify, tree_teardown}, {"tree-avl", tree2_setup, tree_run, tree_verify, tree_teardown},
     {"hashtable-list", ht_setup, ht_run, ht_verify, ht_teardown}, {"strings-errors", none, str_run, ok, none}, {"inifile", none, ini_run, ok, none}, {"cryptohash", crypto_setup, crypto_run, crypto_verify, none},
     {"ipc", none, ipc_run, ipc_verify, none}, {"sockets", none, sock_run, ok, none}, {"dir", none, dir_run, ok, none}, {"libraryloader", none, lib_run, ok, none},
-    {"threads-tls", none, thr_run, ok, none}, {"locks", none, lock_run, ok, none},
+    {"threads-tls", none, thr_run, ok, none}, {"locks", none, lock_run, ok, none}, {"timeprofiler-strtok-process-file", none, misc_run, ok, none},
 };
 #define NSC ((int)(sizeof SC / sizeof SC[0]))
 
